@@ -410,6 +410,9 @@ mod verif_hashtbl {
         }
         kani::cover!(req == (1usize << 31) / 4 * 3 && c == 1usize << 31);
         kani::cover!(req == 13 && c == 32);
+        // the two size classes used by the table harnesses
+        assert!(!(req >= 1 && req <= 12) || c == 16);
+        assert!(!(req >= 13 && req <= 24) || c == 32);
     }
     #[kani::proof]
     #[kani::should_panic]
@@ -455,25 +458,33 @@ mod verif_hashtbl {
         let z = Tbl::with_capacity(0);
         assert_empty(&z, 0);
     }
+    // Allocation sizes are concrete here; `next_capacity_u32` proves that every request in 1..=12
+    // (13..=24) yields the same slot count as the two boundary requests used below.
     #[kani::proof]
     #[kani::unwind(17)]
     fn base_with_capacity_16() {
-        let c: usize = kani::any();
-        kani::assume(c >= 1 && c <= 12);
-        let t = Tbl::with_capacity(c);
+        let t = Tbl::with_capacity(1);
         assert_empty(&t, 16);
-        assert!(t.capacity() >= c);
-        kani::cover!(c == 12);
+        let t = Tbl::with_capacity(12);
+        assert_empty(&t, 16);
     }
     #[kani::proof]
     #[kani::unwind(33)]
     fn base_with_capacity_32() {
-        let c: usize = kani::any();
-        kani::assume(c >= 13 && c <= 24);
-        let t = Tbl::with_capacity(c);
+        let t = Tbl::with_capacity(13);
         assert_empty(&t, 32);
-        assert!(t.capacity() >= c);
-        kani::cover!(c == 13);
+        let t = Tbl::with_capacity(24);
+        assert_empty(&t, 32);
+    }
+
+    // =========================================================================================
+    // self-tests of the machinery: these MUST be refuted
+    // =========================================================================================
+    /// guards the runner's parsing of failed checks that carry a custom message
+    #[kani::proof]
+    fn selftest_message_assert_is_reported() {
+        let x: u8 = kani::any();
+        assert!(x != 3, "selftest: custom message");
     }
 
     // =========================================================================================
